@@ -46,6 +46,10 @@ CONSTANTS
     PForms,     \* forms in which a reaction carries its constant: "plain" number, "ma" MassAction([k]),
                 \*   "str" the key 'k<i>' looked up in the variables
     Containers, \* containers for the array form: "list", "tuple", "ndarray"
+    SForms,     \* forms of the constructor's `substances` argument: "list", "str", "odict", "alias" (keys
+                \*   differ from Substance.name), and - when the order is the sorted one - "set", "none",
+                \*   "sortlist" (the constructor sorts)
+    KeySortSeq,    \* the species in the lexicographic order of their ACTUAL keys (NameMap)
     OvKVals     \* sequence of constants used when per-reaction rate expressions are passed explicitly
 
 VARIABLES
@@ -111,6 +115,9 @@ FeedTerm(fd, cc, s) == QMul(fd.F, QSub(fd.cf[s], cc[s]))
 SeqSet(sq) == { sq[i] : i \in DOMAIN sq }
 \* a substance gets a feed term iff the caller's mapping lists it (all substances by default)
 Fed(fd, s) == fd.on /\ s \in SeqSet(fd.order)
+\* sorting the substances (what the constructor does for unordered input, and sort_substances_inplace)
+SortedOrder(o) == SelectSeq(KeySortSeq, LAMBDA s : s \in SeqSet(o))
+IsKeySorted(o) == o = SortedOrder(o)
 RatesCSTR(sys, cc, fd) ==
     [s \in Species |-> IF s \in SeqSet(fd.order) THEN QAdd(Rates(sys, cc)[s], FeedTerm(fd, cc, s))
                        ELSE Rates(sys, cc)[s]]
@@ -198,7 +205,7 @@ OrderFor(o, sys) == IF FullOrder THEN o ELSE SelectSeq(o, LAMBDA s : s \in Touch
 
 (* fix the substance order, the concentration state and the phase of each substance object *)
 SetState(o, cc, ph) ==
-    /\ phase = "build" /\ rsys # <<>> /\ IsOrder(o)
+    /\ phase = "build" /\ IsOrder(o) /\ o # <<>>      \* (a system may have no reaction at all)
     /\ Touched(rsys) \subseteq { o[i] : i \in DOMAIN o }
     /\ DOMAIN cc = Species /\ \A s \in Species : IsQ(cc[s])
     /\ DOMAIN ph = Species /\ \A s \in Species : ph[s] \in Nat
@@ -227,6 +234,14 @@ Reassign(i, kv) ==
     /\ hist' = Append(hist, <<i, rsys[i].kv, kv>>)
     /\ UNCHANGED <<subst, c, feed, sphase, phase>>
 
+(* the substances are sorted in place after the state has been evaluated: only the ORDER of the  *)
+(* system changes (array-form results follow it), nothing else                                 *)
+SortSubstances ==
+    /\ phase = "ready" /\ ~IsKeySorted(subst)
+    /\ subst' = SortedOrder(subst)
+    /\ hist' = Append(hist, <<0, subst, SortedOrder(subst)>>)
+    /\ UNCHANGED <<rsys, c, feed, sphase, phase>>
+
 RevSeq(sq) == [i \in 1..Len(sq) |-> sq[Len(sq) + 1 - i]]
 FeedOrderOf(kind) ==
     CASE kind = "all" -> <<subst, FALSE>>
@@ -242,7 +257,9 @@ GenReassign == \E i \in DOMAIN rsys, kv \in ReKVals :
                   /\ Len(hist) < MaxHist /\ \A j \in DOMAIN rsys : rsys[j].kv # kv
                   /\ Reassign(i, kv)
 
-Next == GenAdd \/ GenState \/ GenFeed \/ GenReassign
+GenSort == Len(hist) < MaxHist /\ SortSubstances
+
+Next == GenAdd \/ GenState \/ GenFeed \/ GenReassign \/ GenSort
 Spec == Init /\ [][Next]_kvars
 
 Done == phase = "ready"
@@ -288,9 +305,11 @@ FeedExact == (Done /\ feed.on) =>
 
 \* after re-assignments the constant in force is the last one assigned (and only constants changed)
 CurrentConstantRules == Done =>
-    /\ \A j \in DOMAIN hist :
+    /\ \A j \in { x \in DOMAIN hist : hist[x][1] > 0 } :
           (\A l \in DOMAIN hist : l > j => hist[l][1] # hist[j][1]) => rsys[hist[j][1]].kv = hist[j][3]
-    /\ \A j \in DOMAIN hist : hist[j][1] \in DOMAIN rsys /\ hist[j][2] # hist[j][3]
+    /\ \A j \in { x \in DOMAIN hist : hist[x][1] > 0 } : hist[j][1] \in DOMAIN rsys /\ hist[j][2] # hist[j][3]
+    \* a sort entry records a permutation of the same substances
+    /\ \A j \in { x \in DOMAIN hist : hist[x][1] = 0 } : SeqSet(hist[j][2]) = SeqSet(hist[j][3]) /\ IsKeySorted(hist[j][3])
 
 \* a catalyst (same active coefficient on both sides, nothing inactive) has net 0 but still
 \* shows in the exponent vectors of the other substances
@@ -343,6 +362,7 @@ Class == "n" \o ToString(Len(rsys))
          \o (IF HasZero THEN "-z" ELSE "") \o (IF HasBothSides THEN "-b" ELSE "")
          \o (IF HasShared THEN "-sh" ELSE "") \o (IF feed.on THEN "-cstr" ELSE "")
          \o (IF feed.usermap THEN "-map" ELSE "") \o (IF hist # <<>> THEN "-h" ELSE "")
+         \o (IF \E j \in DOMAIN hist : hist[j][1] = 0 THEN "-sorted" ELSE "")
          \o (IF \E s \in DOMAIN sphase : sphase[s] > 0 THEN "-ph" ELSE "")
          \o (IF Done /\ ~NoZeroValue THEN "-zero" ELSE "")
          \o (IF NeedsRoots(rsys) THEN "-half" ELSE "")
@@ -361,7 +381,18 @@ SelOut(kind) == [ keys |-> KeySel(kind),
 OvOut(pattern) == LET sys == OverrideSys(rsys, pattern)
                   IN  [ contrib |-> [i \in 1..Len(sys) |-> BySubst(Contribution(sys[i], c))],
                         fed |-> BySubst(RatesFed(sys, c, feed)) ]
+\* a second state: the concentrations in reverse order over the substances
+C2 == [s \in Species |-> IF s \in SeqSet(subst)
+                          THEN c[subst[Len(subst) + 1 - (CHOOSE j \in DOMAIN subst : subst[j] = s)]] ELSE c[s]]
+\* forms of the `substances` argument that lead to this order (sorted forms only if it is the sorted one)
+SFormsFor == IF hist # <<>> THEN {"list"} \cap SForms
+             ELSE { f \in SForms :
+                      \/ f \in {"list", "str", "odict", "alias"}
+                      \/ (f \in {"set", "sortlist"} /\ IsKeySorted(subst))
+                      \/ (f = "none" /\ IsKeySorted(subst) /\ SeqSet(subst) = Touched(rsys)) }
 CaseIn == [ subst |-> subst,
+            c2 |-> BySubst(C2),
+            sforms |-> SetToSeq(SFormsFor),
             names |-> BySubst(NameMap),
             pforms |-> SetToSeq(PForms),
             containers |-> SetToSeq(Containers),
@@ -381,6 +412,8 @@ CaseExp == [ net |-> [i \in 1..Len(rsys) |-> BySubst(Net(rsys[i]))],
              rkeys |-> [i \in 1..Len(rsys) |-> SetToSeq(Keys(rsys[i]))],
              selrev |-> SelOut("rev"), selsub |-> SelOut("sub"),
              ovall |-> OvOut("all"), ovmixed |-> OvOut("mixed"),
+             vec |-> BySubst([s \in Species |-> <<RatesFed(rsys, c, feed)[s], RatesFed(rsys, C2, feed)[s]>>]),
+             distinct |-> TRUE,   \* every returned array is an object of its own (no aliasing)
              frame |-> TRUE,   \* evaluating is not an action: the caller's variables are left as they were
              order |-> [i \in 1..Len(rsys) |-> OrderQ(rsys[i])],
              rvals |-> [i \in 1..Len(rsys) |-> RateOf(rsys[i], c)],
